@@ -645,7 +645,7 @@ def run(ctx):
     explore_children_first_under_fault(ctx, 2, [(full2, ROOT, True), (fam[3], ROOT, False)], 2, 3 if q else 12)
     # (3a) deep, sparse pyramids: positions at large coordinates (beyond 2^12 and 2^16), expected operations from TLC's sparse
     # computation of the live set
-    explore_deep(ctx, 5 if q else 40, ["random", "stall-w1-cb", "late-timeout"] if q else ["random", "stall-w1-cb", "late-timeout", "starve-feeder", "workers-last"], 2 if q else 4)
+    explore_deep(ctx, 5 if q else 40, ["random", "stall-w1-cb", "late-timeout"] if q else ["random", "stall-w1-cb", "late-timeout", "starve-feeder", "flag-race"], 2 if q else 4)
     # (3a') the walk reached through its main callers
     explore_cascade_route(ctx, 2, [(fam[1], ROOT), (fam[3], ROOT)] if q else [(fam[1], ROOT), (fam[3], ROOT), (fam[4], ROOT), (fam[5], ROOT)], [1, 2])
     # (3b) histories on one object
